@@ -12,7 +12,7 @@ np.random.seed(f(case seed, member number, number of the call on this member)). 
 function of the member's own call history only, hence identical for a member inside an ensemble (where
 other members draw before and after it) and for its twin run alone.
 """
-import collections, math, types
+import collections, math, time, types
 import numpy as np
 import pandas as pd
 from menelaus.ensemble import (StreamingEnsemble, BatchEnsemble, SimpleMajorityElection,
@@ -36,7 +36,7 @@ TRUSTED = ["Coq 8.16.1 kernel + vm_compute", "theorems: Closed under the global 
            "harness/c12.py, harness/coqgen.py"]
 RULE = ("random ensembles of 0..6 real detectors: streaming = DDM/EDDM/STEPD/LFR/ADWINAccuracy (concept), PageHinkley/CUSUM/ADWIN "
         "(change, one selected column), KdqTreeStreaming (data); batch = HDDDM/CDBD/KdqTreeBatch/NNDVI; all four elections with "
-        "parameters around the member count; selectors = none / random column lists (order, subsets) on arrays or DataFrames; "
+        "parameters around the member count plus a position-weighted user election (the shipped ones only count alarms); selectors = none / random column lists (order, subsets) on arrays or DataFrames; "
         "piecewise-stationary streams whose columns and error rate shift at different times; histories with resets (random and "
         "after an ensemble alarm) and, for batch ensembles, repeated set_reference. Non-trivial: at least two members first "
         "report drift at different calls and the ensemble's verdict takes more than one value.")
@@ -87,8 +87,24 @@ def make_member(spec, base):
     return obj
 
 
+class PositionalElection:
+    """a user-defined election (the ensemble accepts any callable on the detector list) whose verdict depends on
+    the *positions* of the alarming members; the four shipped elections only count alarms, so they cannot show
+    whether the list is passed in insertion order"""
+
+    def __init__(self, weights, threshold):
+        self.weights, self.threshold = list(weights), threshold
+
+    def __call__(self, detectors):
+        d = sum(w for w, det in zip(self.weights, detectors) if det.drift_state == "drift")
+        dw = sum(w for w, det in zip(self.weights, detectors) if det.drift_state is not None)
+        return "drift" if d >= self.threshold else "warning" if dw >= self.threshold else None
+
+
 def make_election(el):
     k = el["kind"]
+    if k == "pos":
+        return PositionalElection(el["ws"], el["thr"])
     if k == "maj":
         return SimpleMajorityElection()
     if k == "min":
@@ -360,6 +376,14 @@ class RuleElection:
             return "drift" if k >= el["a"] else None
         if el["kind"] == "ord":
             return "drift" if k >= el["a"] + el["c"] else None
+        if el["kind"] == "pos":
+            d = dw = 0
+            for i, st in enumerate(states):
+                if st == "drift":
+                    d += el["ws"][i]
+                if st is not None:
+                    dw += el["ws"][i]
+            return "drift" if d >= el["thr"] else "warning" if dw >= el["thr"] else None
         nd = nw = 0
         for i, st in enumerate(states):
             if self.rem[i] == 0:
@@ -408,6 +432,11 @@ def direct_check(case, obs):
         if e["ds"] != ds:
             msgs.append(f"call {j} {op}: ensemble drift_state {e['ds']!r}, its election rule on the members run alone "
                         f"({[o[0] for o in tw]}, {case['election']}) gives {ds!r}")
+        if case["election"]["kind"] == "conf" and e["wait"]:
+            w = case["election"]["w"]
+            if [0 if c == 0 else w + 1 - c for c in e["wait"]] != rule.rem:
+                msgs.append(f"call {j} {op}: ConfirmedElection counters {e['wait']} do not encode the remaining waits "
+                            f"{rule.rem} of the members in insertion order")
         if e["total"] != total:
             msgs.append(f"call {j} {op}: total counter {e['total']} after {total} updates")
         if e["since"] != since:
@@ -448,6 +477,8 @@ def _election_term(el):
         return f"(EMinApproval {G.z(el['a'])})"
     if el["kind"] == "ord":
         return f"(EOrdered {G.z(el['a'])} {G.z(el['c'])})"
+    if el["kind"] == "pos":
+        return f"(EPositional {G.zlist(el['ws'])} {G.z(el['thr'])})"
     return f"(CF {G.z(el['s'])} {G.z(el['w'])})"
 
 
@@ -567,7 +598,10 @@ def draw_cols(rng, det, d):
 
 
 def draw_election(rng, n):
-    k = rng.choice(["maj", "min", "ord", "conf"])
+    k = rng.choice(["maj", "min", "ord", "conf", "conf", "pos"])
+    if k == "pos":
+        ws = rng.sample(range(1, n + 3), n)
+        return {"kind": "pos", "ws": ws, "thr": max(1, rng.randint(min(ws, default=1), max(1, sum(ws) // 2)))}
     if k == "maj":
         return {"kind": "maj"}
     if k == "min":
@@ -642,10 +676,10 @@ def gen_cases(ctx):
         cases.append(c)
         cases.append(gen_batch(ctx, rng, -1, n_members=nm))
     # every election kind on a fixed mix of one concept, one change and one data detector
-    for kind in ("maj", "min", "ord", "conf"):
+    for kind in ("maj", "min", "ord", "conf", "pos"):
         c = gen_stream(ctx, rng, -2, kinds=["DDM", "PH", "KDQS", "STEPD", "ADWIN"])
         el = {"maj": {"kind": "maj"}, "min": {"kind": "min", "a": 2}, "ord": {"kind": "ord", "a": 1, "c": 1},
-              "conf": {"kind": "conf", "s": 2, "w": 25}}[kind]
+              "conf": {"kind": "conf", "s": 2, "w": 25}, "pos": {"kind": "pos", "ws": [1, 8, 2, 4, 16], "thr": 9}}[kind]
         c["election"] = el
         cases.append(c)
     for i in range(ns):
@@ -676,7 +710,20 @@ def signature(case, obs, msgs):
     return {"kind": case["kind"], "election": case["election"]["kind"], "dets": sorted({m["det"] for m in case["members"]})}
 
 
+_SHRINK = {"t0": None}
+
+
 def shrink_candidates(case):
+    """smaller histories / fewer members; all shrinking of one run together is limited to ~40 s of wall time"""
+    if _SHRINK["t0"] is None:
+        _SHRINK["t0"] = time.time()
+    for c in _shrink_candidates(case):
+        if time.time() - _SHRINK["t0"] > 40:
+            return
+        yield c
+
+
+def _shrink_candidates(case):
     ops = case["ops"]
     n = len(ops)
     if n > 1:
